@@ -51,6 +51,29 @@ def handle (j : Json) : Except String Json := do
         | .ok (p', c') => go (i + 1) c' p' rest
         | .error e => Json.mkObj [("err", e.name), ("at", toJson i)]
     pure (go 0 ctx sig ms)
+  | "diff" =>
+    let old ← Codec.sigOf (← j.getObjVal? "old")
+    let new ← Codec.sigOf (← j.getObjVal? "new")
+    let d := diffProject sqliteEnv old new
+    let hint := hintProject sqliteEnv new d
+    -- simulate the hint on the old signature, app by app, and diff again
+    let res : Except String ProjectSig := hint.foldlM (fun p (lm : String × List Mutation) =>
+      match simulateAll sqliteEnv (Codec.flagsOf j) ⟨lm.1, lm.1, true⟩ lm.2 p with
+      | .ok (p', _) => .ok p'
+      | .error e => .error e.name) old
+    let after := match res with
+      | .ok p' => Json.mkObj [("residual", Codec.projDiffJ (diffProject sqliteEnv p' new)),
+                               ("residual_rev", Codec.projDiffJ (diffProject sqliteEnv new p')),
+                               ("eq", toJson (p'.apps.length == new.apps.length &&
+                                  p'.apps.all (fun a => match new.getApp a.id with
+                                    | some b => a.models.length == b.models.length &&
+                                        a.models.all (fun m => match b.getModel m.name with
+                                          | some n => eqModel m n | none => false)
+                                    | none => false)))]
+      | .error e => Json.mkObj [("sim_error", e)]
+    pure (Json.mkObj [("diff", Codec.projDiffJ d),
+      ("hint", Json.arr (hint.map (fun p => Json.arr #[Json.str p.1, Json.arr (p.2.map Codec.mutJ).toArray])).toArray),
+      ("after", after)])
   | _ => .error s!"unknown op {op}"
 
 partial def loop (hin : IO.FS.Stream) (hout : IO.FS.Stream) : IO Unit := do
